@@ -216,6 +216,15 @@ def centre_swaps(rsmi, rng, per_kind=1):
                 byk["noneq"].append((x, y))
             else:
                 byk["other"].append((x, y))
+    if not byk["eq"]:
+        # no interchangeable pair inside the centre: take one anywhere in the ITS (e.g. the oxygens of a sulfonyl group)
+        ns = sorted(I.nodes)
+        for i, x in enumerate(ns):
+            for y in ns[i + 1:]:
+                if I.nodes[x]["lab"] == I.nodes[y]["lab"] and transposition_is_automorphism(I, x, y):
+                    byk["eq"].append((x, y))
+            if len(byk["eq"]) >= 4:
+                break
     out = []
     for k in ("noneq", "eq", "other"):
         ps = byk[k]
@@ -279,6 +288,9 @@ def unbalanced_variants(rsmi, rng):
     fr2 = [list(fa), list(fb)]
     fr2[side].insert(rng.randrange(len(fr2[side]) + 1), _strip_maps(fr[side][k]))
     out.append(("dup", ".".join(fr2[0]) + ">>" + ".".join(fr2[1])))
+    side = rng.randrange(2)
+    hf = rng.choice(("[H+]", "[H][H]", "[H]", "[OH-]"))
+    out.append(("addHfrag", (a + "." + hf + ">>" + b) if side == 0 else (a + ">>" + b + "." + hf)))
     for what in ("charge", "dropH", "addH"):
         side = rng.randrange(2)
         s = _edit_atom((a, b)[side], rng, what)
